@@ -80,7 +80,7 @@ pub fn check_ledger_vs_model(case: &LedgerCase, obs: &mut Obs, what: &CmpWhat, c
     Verdict::Pass
 }
 
-fn check_window(case: &LedgerCase, obs: &mut Obs) -> Verdict { check_ledger_vs_model(case, obs, &CmpWhat::all(), classify_windows) }
+pub fn check_window(case: &LedgerCase, obs: &mut Obs) -> Verdict { check_ledger_vs_model(case, obs, &CmpWhat::all(), classify_windows) }
 
 // ---------- declared superficial losses ----------
 fn declared_strategy(_t: Tier) -> BoxedStrategy<LedgerCase> {
